@@ -18,6 +18,13 @@ CLAIMS = {
                 ref="DESIGN.md §4 C19, §2.2"),
 }
 
+CLAIMS["C10"] = dict(engine="E1+E2", technique="CrossHair symbolic execution (z3) of the real ClaimsRegistry/JWTClaimsRegistry against an independent oracle; z3 FloatingPoint queries over the validate_exp/nbf/iat ASTs for float values",
+    text="validate() is executed symbolically for every claims set / request option shape inside the bounds (unbounded integer now, "
+         "leeway and time values; every JSON type of value; strings <= 1-2 chars; lists <= 2) and its verdict and error class are "
+         "compared with the statement's predicate on every path; float-valued exp/nbf/iat (all of float64 incl. NaN/inf) are decided "
+         "by z3's FP theory on the interpreted AST. Counterexamples are re-run concretely on the real code before being reported.",
+    ref="DESIGN.md §4 C10")
+
 PENDING = {}
 
 
